@@ -14,6 +14,18 @@ CLAIMED = {
          "Programs (half in balanced form) are run with boundary-valued integer arguments and under-funded UTxOs; whenever the pipeline returns Ok every numeric field must fit its ledger type and equal the exact value, and balanced templates must conserve value per asset class on the decoded bytes; a panic is reported as panic-instead-of-error. Held = no silent wrap/truncate/drop outside the listed known findings.",
          "release profile so that wraps are silent (checked profile in a second phase); Err results are always acceptable; ranges per DESIGN appendix B",
          "DESIGN.md section 3 C02"),
+ "C03": ("exploration", "runtime monitor: brute-force reference selector written against the statement + store event log, over an exhaustive query grid on sampled small stores and random large stores",
+         "Every combination of address / reference (own, foreign, dangling) / min_amount per class / single-many / input-collateral is run with the real tx3_resolver::inputs::resolve against sampled stores of 0..4 UTxOs, and random queries against stores of up to 200 UTxOs with amounts up to 2^62; the bound set is checked for soundness against every stated constraint and, when the candidate set has <= 50 members and contains a covering UTxO / total, for completeness. The store's event log shows which narrowing and fetch paths ran. Held = no unsound binding and no missed match.",
+         "the in-memory store implements the UtxoStore contract; min_amount entries are non-negative; multi-reference queries are checked for soundness only; default (vector) selector build",
+         "DESIGN.md section 3 C03"),
+ "C04": ("exploration", "runtime monitor: pairwise-disjointness check of per-block selections after inputs::resolve + duplicate / count check on the raw body input list after resolve_tx",
+         "Templates with 1..4 overlapping input blocks (same party, nested thresholds, shared references, multi-UTxO blocks, optional collateral) are resolved against stores sized below / at / above what the blocks need; selections must be pairwise disjoint, the emitted input list free of duplicates and at least as long as the number of blocks, and resolution must fail when there are fewer UTxOs than blocks. Held on every generated (template, store).",
+         "block names are distinct after lower-casing; collateral may overlap a regular input",
+         "DESIGN.md section 3 C04"),
+ "C05": ("exploration", "runtime monitor: fee-equation oracle on decoded bytes + per-round event log from a compiler wrapper (fee applied, payload length, fee reported)",
+         "The real resolve_tx is run on fee-dependent templates over a protocol-parameter grid with UTxO amounts placed around CBOR width boundaries of the change and the fee; decoded body fee = reported fee = a*len+b+margin, the change and the input threshold must have used that same fee. The round log classifies a failure (cut at the round limit vs returned early). Held except for the listed known finding (oscillation cut at the round limit).",
+         "Err results are out of scope; single-UTxO stores",
+         "DESIGN.md section 3 C05"),
  "C08": ("exploration", "runtime monitor: redeemer-attachment oracle (ledger-order ranks computed by the reference semantics) vs the independently decoded witness set",
          "Generated templates with script inputs (single and multi-UTxO), mints/burns on shared and distinct policies and withdrawals, with random transaction ids / policy ids / credentials so that every relative order occurs; the decoded map (purpose tag, index) -> data must equal the map built from the source. Lost, spurious, misindexed and wrong-data redeemers have distinct signatures. Held = maps equal on every generated case.",
          "ledger ordering of inputs (txid bytes, index), mint policies and reward accounts as implemented in the reference semantics; ambiguous mint blocks (several policies / cancelled policy with a redeemer) are counted, not judged",
@@ -30,6 +42,10 @@ CLAIMED = {
          "Random IR trees covering every Expression/Param/BuiltInOp/CompilerOp/Coerce variant, all lowered example and generated programs are encoded and decoded and compared in canonical form (plus find_params/find_queries and the compiled transaction after identical application); 12 kinds of hostile byte strings and a list of version strings must yield Ok/Err without panic, abort or hang. Held = no difference and no crash on anything generated.",
          "equality is equality of the canonicalised Serialize output; a field hidden from Serialize would be invisible; hang = wall-clock watchdog reproduced alone with 3x budget",
          "DESIGN.md section 3 C11"),
+ "C20": ("exploration", "runtime monitor: differential oracle between a used and a fresh compiler instance over generated call histories",
+         "Histories of 0..4 earlier resolutions (succeeding and failing, with and without min_utxo, 1..6 outputs) are replayed on one compiler instance before a target is resolved; the outcome (bytes, hash, fee / error kind / panic site) must equal that of a fresh identically configured instance. Held on every generated (history, target).",
+         "same single-UTxO store for both runs so that hash order cannot differ; latest_tx_body is the only state the instance carries",
+         "DESIGN.md section 3 C20"),
  "C15": ("exploration", "runtime monitor: algebraic-law oracle + BigInt-style reference map over exhaustive small space and random values",
          "Every pair (and, for associativity, triple) of representations of values over 3 asset classes with amounts in -2..2 is enumerated completely and checked against the group laws with the code's own ==, against a reference map, and against the definitions of the predicates; random values extend this to the i128 range and arbitrary class names. Held = no law failed on any enumerated or sampled execution.",
          "trusts the harness' reference arithmetic (checked i128 over a BTreeMap) and ciborium for building values with explicit zero entries; classes in non-normal form (empty policy / empty name given directly to from_class_and_amount) are only fed through the normalising constructors",
